@@ -35,6 +35,22 @@ def check_gaussian_state(ctx, sf, st, rp, what="gaussian"):
     if ev.min() < -1e-8 * max(1, np.max(np.abs(V))):
         ctx.fail(f"{what}:uncertainty-violated", f"{what} covariance violates the uncertainty relation (min eigenvalue of "
                  f"V + i Omega = {ev.min():.3g})", rp)
+        return
+    # the Fock density matrix the state object hands out (pure and mixed branch, any number of modes) must be one
+    if what == "gaussian" and n <= 3 and hasattr(st, "dm"):
+        D = 4 if n == 3 else 5
+        rho = np.asarray(st.dm(cutoff=D))
+        mat = np.transpose(rho, [2 * i for i in range(n)] + [2 * i + 1 for i in range(n)]).reshape(D ** n, D ** n)
+        herm = float(np.max(np.abs(mat - mat.conj().T)))
+        if herm > 1e-9:
+            ctx.fail("gaussian:dm-not-hermitian", f"dm(cutoff={D}) of the {n}-mode {'pure' if st.is_pure else 'mixed'} Gaussian state "
+                     f"is not Hermitian ({herm:.3g})", rp)
+            return
+        evd = np.linalg.eigvalsh((mat + mat.conj().T) / 2)
+        tr = float(np.real(np.trace(mat)))
+        if evd.min() < -1e-7 or tr > 1 + 1e-8 or np.min(np.real(np.diag(mat))) < -1e-9:
+            ctx.fail("gaussian:dm-not-a-state", f"dm(cutoff={D}) of the {n}-mode {'pure' if st.is_pure else 'mixed'} Gaussian state has "
+                     f"min eigenvalue {evd.min():.3g}, trace {tr:.10f}", rp)
 
 
 def check_fock_state(ctx, sf, st, rp, what):
@@ -150,9 +166,43 @@ def check_physical(ctx, sf, spec, backend, rp, cutoff=8):
         return None
 
 
+class ChannelWatch:
+    """records every `(X, Y)` the bosonic simulator hands to `apply_channel` during a run and judges complete positivity:
+    `Y + i(Omega - X Omega X^T) >= 0` (xxpp ordering, hbar-free)"""
+
+    def __init__(self, sf):
+        from strawberryfields.backends.bosonicbackend.bosoniccircuit import BosonicModes
+        self.cls, self.sf, self.worst, self.bad = BosonicModes, sf, 0.0, None
+
+    def __enter__(self):
+        self.orig = self.cls.apply_channel
+        watch = self
+
+        def wrapped(bm, X, Y):
+            X_, Y_ = np.array(X, dtype=float), np.array(Y, dtype=float) / (bm.hbar / 2)
+            n = X_.shape[0] // 2
+            M = Y_ + 1j * (omega(n) - X_ @ omega(n) @ X_.T)
+            ev = float(np.linalg.eigvalsh((M + M.conj().T) / 2).min())
+            if ev < watch.worst:
+                watch.worst, watch.bad = ev, (np.round(X_, 6).tolist(), np.round(Y_, 6).tolist())
+            return watch.orig(bm, X, Y)
+        self.cls.apply_channel = wrapped
+        return self
+
+    def __exit__(self, *a):
+        self.cls.apply_channel = self.orig
+
+
 def _check_physical(ctx, sf, spec, backend, rp, cutoff=8):
     try:
-        st = run_backend(sf, spec, backend, cutoff)
+        if backend == "bosonic":
+            with ChannelWatch(sf) as cw:
+                st = run_backend(sf, spec, backend, cutoff)
+            if cw.worst < -1e-9:
+                ctx.fail("bosonic:channel-not-cp", f"the bosonic simulator applied a Gaussian map (X, Y) that is not completely "
+                         f"positive: min eigenvalue of Y + i(Omega - X Omega X^T) = {cw.worst:.3g}", rp)
+        else:
+            st = run_backend(sf, spec, backend, cutoff)
     except NotImplementedError:
         ctx.tally("skipped:not-implemented")
         return None
@@ -259,6 +309,16 @@ def bosonic_nongauss_spec(rng, n):
             ops.append(dict(cls="Fock", regs=[m], pars=[rng.choice([1, 2])]))
     for _ in range(rng.randint(1, 5)):
         ops.append(sim.rand_gaussian_op(rng, n, allow_prep=False))
+        if rng.random() < 0.3:      # measurement-based squeezing: average map and single shot, ideal and lossy ancilla detection
+            ops.append(dict(cls="MSgate", regs=[rng.randrange(n)],
+                            pars=[round(rng.uniform(0.2, 0.8), 3) * rng.choice([1, -1]), sim.angle(rng), rng.choice([1.0, 2.0, 10.0]),
+                                  rng.choice([1.0, 0.9, 0.6])], kw=dict(avg=rng.random() < 0.7)))
+    if any(o["cls"] == "Fock" for o in ops):
+        # the single-shot map samples a homodyne outcome by rejection; on the bosonic approximation of a number state (weights
+        # of alternating sign and magnitude ~1e5) its acceptance rate is ~1e-5 per draw: only the average map there
+        for o in ops:
+            if o["cls"] == "MSgate":
+                o["kw"] = dict(avg=True)
     return dict(n=n, ops=ops)
 
 
@@ -326,6 +386,16 @@ def run(ctx, sf):
                 check_physical(ctx, sf, spec, backend, dict(kind="physical", spec=spec, backend=backend))
             except ZeroDivisionError:
                 ctx.tally("skipped:zero-probability")
+    for it in range(ctx.n(10, 100)):      # measurement-based squeezing on Gaussian inputs (single Gaussian: uncertainty relation judged)
+        n = rng.choice([1, 2, 3])
+        ops_ = sim.correlated_prefix(rng, n)[: 2 * n + 1]
+        for _ in range(rng.randint(1, 2)):
+            ops_.append(dict(cls="MSgate", regs=[rng.randrange(n)],
+                             pars=[round(rng.uniform(0.2, 0.9), 3) * rng.choice([1, -1]), sim.angle(rng), rng.choice([0.5, 2.0, 10.0]),
+                                   rng.choice([1.0, 0.95, 0.7, 0.4])], kw=dict(avg=(it % 4 != 3))))
+        spec = dict(n=n, ops=ops_)
+        ctx.count("physical:bosonic-msgate", spec, True, sample=spec)
+        check_physical(ctx, sf, spec, "bosonic", dict(kind="physical", spec=spec, backend="bosonic"))
     for it in range(ctx.n(10, 100)):
         spec = bosonic_nongauss_spec(rng, rng.choice([1, 2]))
         ctx.count("physical:bosonic-nongaussian", spec, True)
